@@ -55,7 +55,7 @@ def st_case(draw, tier):
     cls = CLASSES[variant][:2]
     sp1, sp2 = draw(st.sampled_from(cls)), draw(st.sampled_from(cls))
     kind = draw(st.sampled_from(["isr", "isr", "isr", "mvp", "precursor",
-                                 "transpose", "block_order"]))
+                                 "transpose", "block_order", "mvp_sum"]))
     order = draw(st.integers(0, 2))
     size = len(sp1) + len(sp2)
     cap = {"quick": {2: 2, 3: 2, 4: 2, 5: 1, 6: 1, 7: 1, 8: 1},
@@ -70,6 +70,8 @@ def st_case(draw, tier):
             "size": draw(st.sampled_from([[2, 2], [3, 2], [2, 3], [3, 3]])),
             "canonical": draw(st.booleans()),
             "adc_order": draw(st.integers(0, 4)),
+            "mvp_adc": draw(st.integers(0, 2)),
+            "mvp_order": draw(st.sampled_from([None, None, 0, 1, 2])),
             "mseed": draw(st.integers(0, 2**31))}
 
 
@@ -120,6 +122,8 @@ def run_case(case):
         r.nontrivial = n >= 2
         r.cls("block_order")
         return r
+    if case["kind"] == "mvp_sum":
+        return run_mvp_sum(case, r, sm)
     sp1, sp2, order = case["sp1"], case["sp2"], case["order"]
     sub = case["subtract_gs"]
     I = get_symbols(case["i1"])
@@ -193,6 +197,71 @@ def run_case(case):
                            variant != "pp")
     r.cls(kind, variant, f"order={order}",
           "coupling" if sp1 != sp2 else "diagonal", f"subtract_gs={sub}")
+    return r
+
+
+def run_mvp_sum(case, r, sm):
+    """mvp(adc_order, space, indices, order, subtract_gs) == sum over the
+    blocks / orders the ADC(n) rule admits"""
+    variant = case["variant"]
+    n = case["mvp_adc"]
+    spaces, blocks = adc_rule(variant, n)
+    cls = [c for c in CLASSES[variant][:2] if c in spaces]
+    space = case["sp1"] if case["sp1"] in cls else cls[0]
+    o_req = case["mvp_order"]
+    sub = case["subtract_gs"]
+    I = get_symbols(case["i1"]) if space == case["sp1"] else None
+    if I is None:
+        raise BadCase("index names do not fit the space")
+    s1 = "".join(case["i1"])
+    todo = []
+    for (b1, b2), mx in blocks.items():
+        if b1 != space or b2 not in CLASSES[variant][:2]:
+            if b1 == space and b2 not in CLASSES[variant][:2]:
+                raise BadCase("third class needed")
+            continue
+        for o in range(mx + 1):
+            if o_req is None or o == o_req:
+                todo.append((b2, o))
+    if not todo:
+        raise BadCase("nothing to sum")
+    if any(len(space) + len(b2) >= 6 and o >= 2 for b2, o in todo):
+        raise BadCase("too expensive")
+    max_o = max(o for _, o in todo)
+    need = CLASSES[variant][:2]
+    for attempt in range(4):
+        try:
+            m, ham, pt, isr = make_oracle(case, max(max_o, 1), need, attempt)
+            break
+        except ModelResample:
+            r.resampled += 1
+    else:
+        raise ModelResample("no regular model")
+    if any(not isr.configs[c] for c in need):
+        raise BadCase("model too small")
+    r.sample = (f"SecularMatrix({variant}).mvp({n}, '{space}', '{s1}', "
+                f"order={o_req}, subtract_gs={sub}) model {case['size']}")
+    ok, ex = lib_call(r, "mvp", sm.mvp, n, space, s1, o_req, sub)
+    if not ok:
+        return r
+    n_p, n_h = space.count("p"), space.count("h")
+    p_I = inv(root(factorial(n_p) * factorial(n_h)))
+    vec = np.zeros(len(isr.configs[space]), dtype=object)
+    yts = {}
+    for b2, o in todo:
+        if b2 not in yts:
+            yts[b2] = isr.amplitude_tensor(m, b2, "Y", case["mseed"])
+        M = isr.matrix_series(space, b2, isr.hamiltonian_series(sub))[o]
+        vec = (vec + M.astype(object) @ np.array(yts[b2], dtype=object)) % P
+    vec = np.array([int(v) * p_I % P for v in vec], dtype=np.int64)
+    ref = isr.expand_unrestricted(space, I, None, (), vec, m)
+    val = evaluate(m, Expr(ex).expand().sympy, tuple(I))
+    if not (val == ref).all():
+        r.fail("mvp", f"{r.sample}: {int((val != ref).sum())} of {ref.size} "
+               "elements differ from the sum of the admitted blocks/orders")
+    r.nontrivial = bool((ref != 0).any()) and len(todo) >= 2
+    r.cls("mvp_sum", variant, f"adc={n}", f"order={o_req}",
+          f"subtract_gs={sub}")
     return r
 
 
